@@ -228,17 +228,19 @@ func (l *Listener) acceptDTLSConn(ctx context.Context, config *Config) (net.Conn
 		return &dtls.Conn{}, err
 	}
 
-	err = l.registerCert(connID, clientCert, serverCert)
-	if err != nil {
-		return nil, fmt.Errorf("error registering cert: %v", err)
-	}
-	defer l.removeCert(connID)
-
+	// The channel is registered before the certificates: a handshake can only
+	// succeed once the certificates are known, and it must then find the channel.
 	connCh, err := l.registerChannel(connID)
 	if err != nil {
 		return nil, fmt.Errorf("error registering channel: %v", err)
 	}
 	defer l.removeChannel(connID)
+
+	err = l.registerCert(connID, clientCert, serverCert)
+	if err != nil {
+		return nil, fmt.Errorf("error registering cert: %v", err)
+	}
+	defer l.removeCert(connID)
 
 	select {
 	case conn := <-connCh:
